@@ -6,6 +6,7 @@ import (
 	"fmt"
 
 	"github.com/foxboron/go-uefi/efi/attributes"
+	"github.com/foxboron/go-uefi/efi/signature"
 	"github.com/foxboron/go-uefi/efi/util"
 	"github.com/foxboron/go-uefi/efivar"
 )
@@ -73,6 +74,17 @@ type mutVal struct{ b []byte }
 
 func (m *mutVal) Marshal(b *bytes.Buffer) { b.Write(m.b) }
 func (m *mutVal) Bytes() []byte           { return append([]byte(nil), m.b...) }
+
+// libVal hands the library a payload the way its users do: when the bytes are a signature database the library can
+// decode and re-encode to the same bytes, as a *signature.SignatureDatabase (with `asDB`), otherwise as raw bytes.
+func libVal(b []byte, asDB bool) efivar.Marshallable {
+	if asDB && len(b) > 0 {
+		if db, err := signature.ReadSignatureDatabase(bytes.NewReader(b)); err == nil && bytes.Equal(db.Bytes(), b) {
+			return &db
+		}
+	}
+	return rawVal(b)
+}
 
 // rawSink is the harness's own Unmarshallable. It records whether and with
 // what it was called.
